@@ -163,6 +163,9 @@ func Run(prop, tier string) int {
 	if prop == "C19" {
 		return rt.RunTotal(families[prop], tier)
 	}
+	if prop == "C13" {
+		return rt.RunSpellings(tier, "classes = 3 base shapes (ids, schema-level and type-level definitions, $ref prefixes, dependent schemas, items / additionalProperties / property anything-schemas, property names YAML reads as number / boolean / null); variants = EVERY subset of the applicable re-spelling switches (id, definitions, #/definitions/, upper-case prefix, dependencies, type as one-element list, true for {}, legacy and current key both present) x {JSON, block YAML, flow YAML with unquoted special keys}; all variants of a class must produce byte-identical output. distinct_nontrivial = variants other than the canonical one")
+	}
 	if prop == "C14" {
 		return rt.RunNames(families[prop], tier)
 	}
